@@ -169,10 +169,12 @@ func (e *Extractor) extractPrefixes(re *syntax.Regexp, depth int) *Seq {
 		}
 		// Direct literal: "hello" → ["hello"]
 		bytes := runeSliceToBytes(re.Rune)
+		complete := true
 		if len(bytes) > e.config.MaxLiteralLen {
 			bytes = bytes[:e.config.MaxLiteralLen]
+			complete = false // a truncated literal is no longer a whole match
 		}
-		return NewSeq(NewLiteral(bytes, true))
+		return NewSeq(NewLiteral(bytes, complete))
 
 	case syntax.OpConcat:
 		// Cross-product expansion through the entire concatenation.
@@ -247,9 +249,10 @@ func (e *Extractor) extractPrefixesAlternate(re *syntax.Regexp, depth int) *Seq 
 	overflowed := false
 	for _, sub := range re.Sub {
 		seq := e.extractPrefixes(sub, depth+1)
-		if seq.IsEmpty() {
+		if seq.IsEmpty() || seq.IsPartialCoverage() {
 			// This branch has no prefix requirement (e.g., .*?, .+, empty match)
-			// Therefore the whole alternation has no prefix requirement
+			// or only a partial one. Therefore the whole alternation has no
+			// prefix requirement
 			return NewSeq()
 		}
 		for i := 0; i < seq.Len(); i++ {
@@ -279,11 +282,11 @@ func (e *Extractor) extractPrefixesAlternate(re *syntax.Regexp, depth int) *Seq 
 		result.Dedup()
 		if result.Len() > e.config.MaxLiterals {
 			result.literals = result.literals[:e.config.MaxLiterals]
+			result.partialCoverage = true
 		}
-		// Mark partial coverage when overflow truncated branches.
-		// Prefilter with partial coverage CANNOT be used in candidate loops
-		// (would miss unrepresented branches). Only safe as skip-ahead
-		// inside NFA/DFA engine (Rust approach: PikeVM integrates prefilter).
+		// Mark partial coverage when overflow or truncation dropped branches.
+		// A partial-coverage set proves nothing on a miss, so it must not be
+		// used to build a prefilter.
 		if overflowed {
 			result.partialCoverage = true
 		}
@@ -345,6 +348,9 @@ func (e *Extractor) extractPrefixesConcat(re *syntax.Regexp, depth int) *Seq {
 
 		// Compute cross-product of accumulator with contribution
 		acc.CrossForward(contribution)
+		if contribution.IsPartialCoverage() {
+			acc.partialCoverage = true
+		}
 
 		// Enforce overflow limits
 		if acc.Len() > crossLimit || acc.Len() > e.config.MaxLiterals {
@@ -449,8 +455,8 @@ func (e *Extractor) expandAlternateContribution(alt *syntax.Regexp, depth int) *
 	overflowed := false
 	for _, sub := range alt.Sub {
 		seq := e.extractPrefixes(sub, depth+1)
-		if seq.IsEmpty() {
-			return nil // One branch has no literals, cannot expand
+		if seq.IsEmpty() || seq.IsPartialCoverage() {
+			return nil // One branch has no (or only partial) literals, cannot expand
 		}
 
 		if overflowed {
@@ -477,7 +483,9 @@ func (e *Extractor) expandAlternateContribution(alt *syntax.Regexp, depth int) *
 		e.markAllInexact(result)
 		result.Dedup()
 		if result.Len() > e.config.MaxLiterals {
+			// Dropping literals leaves branches unrepresented: record it.
 			result.literals = result.literals[:e.config.MaxLiterals]
+			result.partialCoverage = true
 		}
 	}
 
@@ -547,9 +555,11 @@ func (e *Extractor) handleCrossProductOverflow(s *Seq) *Seq {
 	e.markAllInexact(s)
 	s.Dedup()
 
-	// If still over MaxLiterals after dedup, truncate the list
+	// If still over MaxLiterals after dedup, truncate the list. Dropping
+	// literals leaves matches unrepresented: record it.
 	if s.Len() > e.config.MaxLiterals {
 		s.literals = s.literals[:e.config.MaxLiterals]
+		s.partialCoverage = true
 	}
 	return s
 }
@@ -589,11 +599,13 @@ func (e *Extractor) extractSuffixes(re *syntax.Regexp, depth int) *Seq {
 		}
 		// Direct literal
 		bytes := runeSliceToBytes(re.Rune)
+		complete := true
 		if len(bytes) > e.config.MaxLiteralLen {
 			// For suffix, take the LAST MaxLiteralLen bytes
 			bytes = bytes[len(bytes)-e.config.MaxLiteralLen:]
+			complete = false // a truncated literal is no longer a whole match
 		}
-		return NewSeq(NewLiteral(bytes, true))
+		return NewSeq(NewLiteral(bytes, complete))
 
 	case syntax.OpConcat:
 		// Concatenation: take suffix from LAST sub-expression and extend with preceding literals
@@ -659,11 +671,13 @@ func (e *Extractor) extractSuffixes(re *syntax.Regexp, depth int) *Seq {
 				copy(newBytes, prefix)
 				copy(newBytes[len(prefix):], lit.Bytes)
 				// Truncate if too long
+				complete := lit.Complete
 				if len(newBytes) > e.config.MaxLiteralLen {
 					// For suffix, keep the last MaxLiteralLen bytes
 					newBytes = newBytes[len(newBytes)-e.config.MaxLiteralLen:]
+					complete = false
 				}
-				lits[j] = NewLiteral(newBytes, lit.Complete)
+				lits[j] = NewLiteral(newBytes, complete)
 			}
 			suffixes = NewSeq(lits...)
 
@@ -687,8 +701,10 @@ func (e *Extractor) extractSuffixes(re *syntax.Regexp, depth int) *Seq {
 			}
 			for i := 0; i < seq.Len(); i++ {
 				allLits = append(allLits, seq.Get(i))
-				if len(allLits) >= e.config.MaxLiterals {
-					return NewSeq(allLits...)
+				if len(allLits) > e.config.MaxLiterals {
+					// Too many alternatives: a truncated set would not cover
+					// every branch, so report "no information".
+					return NewSeq()
 				}
 			}
 		}
@@ -787,8 +803,10 @@ func (e *Extractor) extractInner(re *syntax.Regexp, depth int) *Seq {
 			}
 			for i := 0; i < seq.Len(); i++ {
 				allLits = append(allLits, seq.Get(i))
-				if len(allLits) >= e.config.MaxLiterals {
-					return NewSeq(allLits...)
+				if len(allLits) > e.config.MaxLiterals {
+					// Too many alternatives: a truncated set would not cover
+					// every branch, so report "no information".
+					return NewSeq()
 				}
 			}
 		}
@@ -882,7 +900,7 @@ func (e *Extractor) expandCaseFoldLiteral(runes []rune) *Seq {
 	}
 	result.Dedup()
 	if result.Len() > e.config.MaxLiterals {
-		result.literals = result.literals[:e.config.MaxLiterals]
+		return NewSeq()
 	}
 	return result
 }
@@ -908,10 +926,12 @@ func (e *Extractor) generateCaseFoldVariants(foldSets [][]rune, prefixLen int) *
 	lits := make([]Literal, 0, len(variants))
 	for _, v := range variants {
 		b := runeSliceToBytes(v)
+		complete := true
 		if len(b) > e.config.MaxLiteralLen {
 			b = b[:e.config.MaxLiteralLen]
+			complete = false
 		}
-		lits = append(lits, NewLiteral(b, true))
+		lits = append(lits, NewLiteral(b, complete))
 	}
 	return NewSeq(lits...)
 }
@@ -984,14 +1004,17 @@ func (e *Extractor) expandCharClass(re *syntax.Regexp) *Seq {
 		for r := lo; r <= hi; r++ {
 			bytes := []byte(string(r))
 			// Truncate if exceeds MaxLiteralLen
+			complete := true
 			if len(bytes) > e.config.MaxLiteralLen {
 				bytes = bytes[:e.config.MaxLiteralLen]
+				complete = false
 			}
-			lits = append(lits, NewLiteral(bytes, true))
+			lits = append(lits, NewLiteral(bytes, complete))
 
-			// Respect MaxLiterals limit
-			if len(lits) >= e.config.MaxLiterals {
-				return NewSeq(lits...)
+			// Over the MaxLiterals limit: a partial expansion would not cover
+			// the class, so report "no information" instead.
+			if len(lits) > e.config.MaxLiterals {
+				return NewSeq()
 			}
 		}
 	}
